@@ -8,7 +8,7 @@ from .common import last, ref_outcome, check_against_ref, escape_of
 ID = "C10"
 BUDGET = {"quick": 1500, "thorough": 60000}
 RULE = ("every generated template (AST generator with missing paths planted at every expression position kind: top level, "
-        "nested scopes, helper arguments, partial arguments, inside partials; and the string-level generator with helpers, "
+        "nested scopes, helper arguments, partial arguments, inside partials; with and without the hooks helperMissing / blockHelperMissing registered; and the string-level generator with helpers, "
         "subexpressions, lookup) rendered under strict=false and strict=true on the same registry; relation checked on the "
         "real crate: a strict success has the non-strict output; oracle for the strict run = reference renderer in strict "
         "mode (MissingVariable exactly where a path designates nothing / each-with without else on a missing value); "
@@ -46,6 +46,12 @@ def generate(rng, n, tier="quick"):
             oc_loose = ref_outcome(asts, "main", data, False)
             meta = {"mode": "ast", "strict": list(oc_strict), "loose": list(oc_loose)}
             cfg = {"escape": "html"}
+            if r.chance(0.3):
+                # with the hooks helperMissing / blockHelperMissing registered: they answer for missing values in NON-strict
+                # mode only – a strict render fails as it does without them
+                cfg = {"escape": "html", "helpers": [{"name": "helperMissing", "kind": "mark", "tag": "HM"}, {"name": "blockHelperMissing", "kind": "mark", "tag": "BM"}]}
+                meta["loose"] = ["any", "the hook's output is not the reference's business"]
+                meta["hooks"] = True
         else:
             data = gen_json(r, 3, want="obj")
             if not isinstance(data, dict):
